@@ -10,15 +10,24 @@ def sh(cmd, cwd=None, timeout=3000):
     r = subprocess.run(["bash", "-c", cmd], cwd=cwd, env=env, capture_output=True, text=True, errors="replace", timeout=timeout)
     return r.returncode, r.stdout + r.stderr
 head = subprocess.run("git -C /repo rev-parse HEAD", shell=True, capture_output=True, text=True).stdout.strip()
-for prop in sys.argv[1:]:
-    wt = f"/tmp/seed-{prop}"
-    for ab in "AB":
+args = sys.argv[1:]
+round2 = False
+if args and args[0] == "--round2":
+    round2 = True
+    args = args[1:]
+for prop in args:
+    wt = f"/tmp/seed2-{prop}" if round2 else f"/tmp/seed-{prop}"
+    for ab in ("CD" if round2 else "AB"):
         sd = f"{wt}/seedout/{ab}"
         if not os.path.exists(sd + "/patch.diff"):
             print(prop, ab, "no patch"); continue
         meta = json.load(open(sd + "/meta.json"))
         sh(f"git checkout -q -- . ; git clean -fdq -e seedout ; git checkout -q --detach {head}", cwd=wt)
         cmd = meta.get("demo_cmd", "")
+        if meta.get("demo_dest"):
+            # round-2 format: copy the demonstration to demo_dest, then run demo_cmd
+            dest = meta["demo_dest"]
+            cmd = f"mkdir -p $(dirname {dest}) && cp seedout/{ab}/demo_test.go {dest} && " + cmd
         cmd = re.split(r"\s{2,}[(#]", cmd)[0].strip()
         cmd = re.sub(r"\s*;\s*rm\s+\S+\s*$", "", cmd)
         cmd = re.sub(r"git apply \S+\s*&&\s*", "", cmd)
